@@ -524,3 +524,154 @@ Theorem unsetup_flavor_refuted_pinned :
     request_text exf_cfg ext_tc exf_tw 20 exf_st1 [] (lit "tool") false false = Ok (Some exf_st0).
 Proof. do 3 eexists. repeat split; vm_compute; reflexivity. Qed.
 Print Assumptions unsetup_flavor_refuted_pinned.
+
+(* ================================================================================================
+   The composed model with the comparator and the matcher of C10 (Model/ResolveReal.v: request_full_real =
+   request_full vcmp_real vmatch_real).  The hypothesis of closure_exact that the comparator is a total order on the
+   declared version names is discharged from the theorems of Props/C10.v for worlds whose version names are
+   conventional and, per product, spell pairwise different keys (fw_real_ok, decidable; Props/C03.v
+   real_comparator_total_order shows that this is exactly what the hypothesis means for the real comparator).
+   With two spellings of one key (1.0 and 1_0) the resolver takes the later listed one (Props/C03.v tie_rules_real),
+   which is not the one the designation rule names: outside fw_real_ok the model is tied to the code by the
+   correspondence check only (real-comparator-comparisons).
+   ================================================================================================ *)
+From Eupsv Require Import Model.ResolveReal Proofs.ResolveReal Proofs.SetupFullRealExample.
+
+Theorem closure_exact_real fw cfg rc flavors dl rank vro top li D fuel st st' al' tr :
+  WF2 (fw_products fw) dl rank -> c_max_depth cfg = None ->
+  wf_db (db_of cfg fw) = true -> fw_real_ok cfg fw = true ->
+  mem_entry EKeep vro = false ->
+  conflict_free vcmp_real vmatch_real fw cfg rc flavors vro top li D ->
+  nodollar_paths (fw_products fw) (s_env st) ->
+  (forall n, reachN fw top n -> find_setup_product (fw_products fw) (s_env st) n = None) ->
+  setup_full_real fw cfg rc flavors fuel st [] vro top li true 0 false = FDone true st' al' tr ->
+  (forall k, reach_ok fw D top k ->
+     exists v q, D k = Some v /\ find_pv (fw_products fw) k v = Some q /\
+                 find_setup_product (fw_products fw) (s_env st') k = Some q) /\
+  (forall k q, reachN fw top k -> find_setup_product (fw_products fw) (s_env st') k = Some q ->
+     reach_ok fw D top k /\ D k = Some (p_version q)) /\
+  (forall k, known (fw_products fw) k -> ~ reachN fw top k ->
+     find_setup_product (fw_products fw) (s_env st') k = find_setup_product (fw_products fw) (s_env st) k).
+Proof.
+  intros H Hd Hw Hok. apply (closure_exact vcmp_real vmatch_real fw cfg rc flavors dl rank); auto.
+  now apply fw_real_ok_total.
+Qed.
+Print Assumptions closure_exact_real.
+
+Corollary closure_exact_request_real fw cfg rc flavors dl rank vro top version D fuel st st' tr :
+  WF2 (fw_products fw) dl rank -> c_max_depth cfg = None ->
+  wf_db (db_of cfg fw) = true -> fw_real_ok cfg fw = true ->
+  select_vro rc (request_opts cfg version) = Ok vro -> mem_entry EKeep vro = false ->
+  conflict_free vcmp_real vmatch_real fw cfg rc flavors vro top {| li_version := version; li_expr := None |} D ->
+  nodollar_paths (fw_products fw) (s_env st) ->
+  (forall n, reachN fw top n -> find_setup_product (fw_products fw) (s_env st) n = None) ->
+  request_full_real fw cfg rc flavors fuel st top version true false = Ok (Some st', tr) ->
+  (forall k, reach_ok fw D top k ->
+     exists v q, D k = Some v /\ find_pv (fw_products fw) k v = Some q /\
+                 find_setup_product (fw_products fw) (s_env st') k = Some q) /\
+  (forall k q, reachN fw top k -> find_setup_product (fw_products fw) (s_env st') k = Some q ->
+     reach_ok fw D top k /\ D k = Some (p_version q)).
+Proof.
+  intros H Hd Hw Hok. apply (closure_exact_request vcmp_real vmatch_real fw cfg rc flavors dl rank); auto.
+  now apply fw_real_ok_total.
+Qed.
+Print Assumptions closure_exact_request_real.
+
+(* the invariant and the explicit-version clause hold for every resolver, so for this one *)
+Corollary request_full_real_preserves_inv fw cfg rc flavors dl rank fuel st name version fwd just st' tr :
+  WF2 (fw_products fw) dl rank -> nodollar_paths (fw_products fw) (s_env st) -> Inv (fw_products fw) (s_env st) ->
+  request_full_real fw cfg rc flavors fuel st name version fwd just = Ok (Some st', tr) ->
+  Inv (fw_products fw) (s_env st').
+Proof. apply request_full_preserves_inv. Qed.
+Print Assumptions request_full_real_preserves_inv.
+
+(* ---- inhabited: rvx_fw (Proofs/SetupFullRealExample.v): base 1.9 1.10-rc1 1.10 1.10+1, libb 1.0.1 with
+   setupRequired(base < 1.10).  setup libb: the assignment is libb 1.0.1, base 1.10-rc1; the closure is {libb, base};
+   the dotted-numeric comparator would have set base 1.9 up ---- *)
+Example closure_exact_real_inhabited :
+  WF2 (fw_products rvx_fw) (dl_of rvx_world) (rank_of rvx_order) /\ c_max_depth ex_cfg = None /\
+  wf_db (db_of ex_cfg rvx_fw) = true /\ fw_real_ok ex_cfg rvx_fw = true /\
+  mem_entry EKeep ex_vro = false /\
+  conflict_free vcmp_real vmatch_real rvx_fw ex_cfg default_config ex_flavors ex_vro (lit "libb") no_info rvx_D /\
+  reach_ok rvx_fw rvx_D (lit "libb") (lit "base") /\
+  (exists al' tr,
+    setup_full_real rvx_fw ex_cfg default_config ex_flavors 20 ex_st0 [] ex_vro (lit "libb") no_info true 0 false
+      = FDone true rvx_libb_state al' tr /\
+    find_setup_product rvx_world (s_env rvx_libb_state) (lit "base") = find_pv rvx_world (lit "base") (lit "1.10-rc1")) /\
+  (exists st' tr,
+    request_full_simple rvx_fw ex_cfg default_config ex_flavors 20 ex_st0 (lit "libb") None true false = Ok (Some st', tr) /\
+    find_setup_product rvx_world (s_env st') (lit "base") = find_pv rvx_world (lit "base") (lit "1.9")).
+Proof.
+  split; [apply wf2_check_sound; vm_compute; reflexivity|]. split; [reflexivity|]. split; [vm_compute; reflexivity|].
+  split; [vm_compute; reflexivity|]. split; [reflexivity|].
+  assert (CF : conflict_free vcmp_real vmatch_real rvx_fw ex_cfg default_config ex_flavors ex_vro (lit "libb") no_info rvx_D).
+  { split; [vm_compute; reflexivity|]. intros n v p _ Dn F. unfold rvx_D in Dn.
+    destruct (str_eqb_spec n (lit "libb")) as [->|N1].
+    - injection Dn as <-. vm_compute in F. injection F as <-.
+      split; [split; [reflexivity|vm_compute; reflexivity]|]. cbn. tauto.
+    - destruct (str_eqb_spec n (lit "base")) as [->|N2]; [|discriminate].
+      injection Dn as <-. vm_compute in F. injection F as <-. cbn. tauto. }
+  split; [exact CF|]. split.
+  - apply (ro_dep rvx_fw rvx_D (lit "libb") (lit "1.0.1") rvx_libb false (lit "base") false (lit "base"));
+      try reflexivity; [now left| |constructor].
+    apply (su_intro rvx_fw rvx_D (lit "base") (lit "1.10-rc1") (ex_base "1.10-rc1")); try reflexivity.
+    intros x j Hin. cbn in Hin. intuition discriminate.
+  - split.
+    + eexists. eexists. split; vm_compute; reflexivity.
+    + eexists. eexists. split; vm_compute; reflexivity.
+Qed.
+Print Assumptions closure_exact_real_inhabited.
+
+(* ---- names that spell one key.  The database view of the composed model is ONE stack; when its listings are sorted as
+   strings (db_sorted: what Database.findProducts returns, and the order in which the correspondence check hands the
+   declarations to the model) the resolver with the real comparator is the resolver with vcmp_sorted - the order of C10
+   refined by the order of the strings among spellings of one key, a total order on conventional names
+   (Props/C03.v sorted_order_is_total, walk_is_designation_one_sorted_stack).  So the closure clause holds for EVERY world
+   with conventional version names (fw_conv), 1.0 next to 1_0 included, the version the resolution order designates
+   being read in that order. ---- *)
+From Eupsv Require Import Proofs.ResolveRealSorted.
+
+Theorem closure_exact_real_sorted fw cfg rc flavors dl rank vro top li D fuel st st' al' tr :
+  WF2 (fw_products fw) dl rank -> c_max_depth cfg = None ->
+  wf_db (db_of cfg fw) = true -> fw_conv fw = true -> db_sorted (db_of cfg fw) = true ->
+  mem_entry EKeep vro = false ->
+  conflict_free vcmp_sorted vmatch_real fw cfg rc flavors vro top li D ->
+  nodollar_paths (fw_products fw) (s_env st) ->
+  (forall n, reachN fw top n -> find_setup_product (fw_products fw) (s_env st) n = None) ->
+  setup_full_real fw cfg rc flavors fuel st [] vro top li true 0 false = FDone true st' al' tr ->
+  (forall k, reach_ok fw D top k ->
+     exists v q, D k = Some v /\ find_pv (fw_products fw) k v = Some q /\
+                 find_setup_product (fw_products fw) (s_env st') k = Some q) /\
+  (forall k q, reachN fw top k -> find_setup_product (fw_products fw) (s_env st') k = Some q ->
+     reach_ok fw D top k /\ D k = Some (p_version q)) /\
+  (forall k, known (fw_products fw) k -> ~ reachN fw top k ->
+     find_setup_product (fw_products fw) (s_env st') k = find_setup_product (fw_products fw) (s_env st) k).
+Proof.
+  intros H Hd Hw C S Hk CF Hnd Hfresh E. rewrite (setup_full_real_is_sorted cfg fw rc flavors) in E by assumption.
+  apply (closure_exact vcmp_sorted vmatch_real fw cfg rc flavors dl rank vro top li D fuel st st' al' tr); auto.
+  now apply fw_conv_total_sorted.
+Qed.
+Print Assumptions closure_exact_real_sorted.
+
+Example closure_exact_real_sorted_inhabited :
+  WF2 (fw_products rvt_fw) (dl_of rvt_world) (rank_of rvx_order) /\
+  wf_db (db_of ex_cfg rvt_fw) = true /\ fw_conv rvt_fw = true /\ db_sorted (db_of ex_cfg rvt_fw) = true /\
+  fw_real_ok ex_cfg rvt_fw = false /\
+  conflict_free vcmp_sorted vmatch_real rvt_fw ex_cfg default_config ex_flavors ex_vro (lit "libb") no_info rvt_D /\
+  exists st' al' tr,
+    setup_full_real rvt_fw ex_cfg default_config ex_flavors 20 ex_st0 [] ex_vro (lit "libb") no_info true 0 false
+      = FDone true st' al' tr /\
+    find_setup_product rvt_world (s_env st') (lit "base") = find_pv rvt_world (lit "base") (lit "1_0").
+Proof.
+  split; [apply wf2_check_sound; vm_compute; reflexivity|]. split; [vm_compute; reflexivity|].
+  split; [vm_compute; reflexivity|]. split; [vm_compute; reflexivity|]. split; [vm_compute; reflexivity|].
+  split.
+  - split; [vm_compute; reflexivity|]. intros n v p _ Dn F. unfold rvt_D in Dn.
+    destruct (str_eqb_spec n (lit "libb")) as [->|N1].
+    + injection Dn as <-. vm_compute in F. injection F as <-.
+      split; [split; [reflexivity|vm_compute; reflexivity]|]. cbn. tauto.
+    + destruct (str_eqb_spec n (lit "base")) as [->|N2]; [|discriminate].
+      injection Dn as <-. vm_compute in F. injection F as <-. cbn. tauto.
+  - eexists. eexists. eexists. split; vm_compute; reflexivity.
+Qed.
+Print Assumptions closure_exact_real_sorted_inhabited.
